@@ -45,8 +45,41 @@ let () =
            | Thrown c -> Printf.printf "%s err %d\n" id (int_of_n c))
         with Failure m -> Printf.printf "%s badscript\n" id)
     | "T" :: id :: enc :: rest ->
-        (try Printf.printf "%s ok %s\n" id (token_of_u16 (ser_text (kind_of enc) (events rest)))
+        (try (match ser_text_as_coded (kind_of enc) (events rest) with
+              | Some l -> Printf.printf "%s ok %s\n" id (token_of_u16 l)
+              | None -> Printf.printf "%s err 4\n" id)
          with Failure m -> Printf.printf "%s badscript\n" id)
+    | "O" :: id :: apiind :: apienc :: rest ->
+        (* option selection: O id <setIndent|-1> <setOutputEncoding|-> ( "|" | attr=value )*   one "|" opens an xsl:output element *)
+        (try
+          let yes v = (v = "yes") in
+          let attr_of (t : string) : oattr =
+            match String.index_opt t '=' with
+            | None -> failwith "attr"
+            | Some i ->
+              let k = String.sub t 0 i and v = String.sub t (i + 1) (String.length t - i - 1) in
+              (match k with
+               | "m" -> AMethod (match v with "xml" -> MXml | "html" -> MHtml | "text" -> MText | _ -> failwith "method")
+               | "v" -> AVersion (ascii v) | "i" -> AIndent (yes v) | "e" -> AEncoding (ascii v) | "o" -> AOmitDecl (yes v)
+               | "s" -> AStandalone (ascii v) | "ds" -> ADoctypeSystem (ascii v) | "dp" -> ADoctypePublic (ascii v)
+               | "c" -> ACdataElems (List.map ascii (String.split_on_char ',' v))
+               | "ia" -> AIndentAmount (z_of_int (int_of_string v)) | "eu" -> AEscapeUrls (yes v) | "om" -> AOmitMeta (yes v)
+               | _ -> failwith "attr") in
+          let rec elems (t : string list) (cur : oattr list) (acc : oattr list list) =
+            match t with
+            | [] -> List.rev (List.rev cur :: acc)
+            | "|" :: r -> elems r [] (List.rev cur :: acc)
+            | x :: r -> elems r (attr_of x :: cur) acc in
+          let outs = (match rest with "|" :: r -> elems r [] [] | [] -> [] | _ -> failwith "attr") in
+          let r = process_outputs outs in
+          let a = { a_indent = z_of_int (int_of_string apiind); a_encoding = (if apienc = "-" then [] else ascii apienc) } in
+          let ((doind, amount), enc) = select_coded r a in
+          let str l = String.concat "" (List.map (fun c -> String.make 1 (Char.chr (int_of_n c))) l) in
+          Printf.printf "%s %s %d %d %s %s\n" id
+            (match r.r_method with MNone -> "none" | MXml -> "xml" | MHtml -> "html" | MText -> "text")
+            (if doind then 1 else 0) (int_of_n amount) (if enc = [] then "-" else str enc)
+            (if r.r_cdata = [] then "-" else String.concat "," (List.map str r.r_cdata))
+        with Failure m -> Printf.printf "%s badscript\n" id)
     | "Q" :: id :: flag :: name :: rest ->          (* HTML table look-up: Q id EMPTY|RAW|BLOCK <u:name> ; Q id ATTRURL|ATTREMPTY <u:elem> <u:attr> *)
         let b = (match flag, rest with
           | "EMPTY", _ -> html_is flag_EMPTY (u16_of_token name)
